@@ -265,7 +265,7 @@ type sym struct {
 
 // Vals are the values given to valued options; Poss the positional tokens
 var Vals = []string{"v1", "v2", "x", "7", "a=b", "v-1", "a b", "é", "=", "x--", "=x", "0", "true", "+5", "50%", "a\tb", "日本語", "0x1F",
-	"a-value-that-is-longer-than-sixty-four-bytes-0123456789-0123456789-0123456789-0123456789"}
+	"a-value-that-is-longer-than-sixty-four-bytes-0123456789-0123456789-0123456789-0123456789", "08", "010", "9223372036854775808", "TRUE", "100%", "$HOME", "caf\xe9"}
 var Poss = []string{"p1", "p2", "q", "3", "-", "p1", "x=y", "é", "+1", "%s", "tab\there", "語",
 	"a-positional-that-is-longer-than-sixty-four-bytes-0123456789-0123456789-0123456789-0123456789"}
 
@@ -388,14 +388,14 @@ func spell(r *rand.Rand, p *Prog, syms []sym) []string {
 }
 
 // Junk are tokens inserted by mutation: undeclared and malformed options, odd strings
-var Junk = []string{"--", "-", "-z", "--zz", "-a", "-b", "-o", "--out", "p9", "-o=", "--out=", "-az", "--aa=false", "-ab=v", "-oa", "", " ", "---", "-=", "--=x", "-o=-x", "--out=--", "-o", "-x", "--aa=", "-a=", "-a=false", "-ba", "-abo", "-abox", "-p", "-p-1", "-q=", "--long", "--long=a,b", "é", "-é", "--a", "-aa", "--aa=true=x", "--zz=v", "-z=v", "--dry-run", "--dry", "-nN", "-e", "--e_1=", "-E7", "-1", "--out", "\t", "-\x00"}
+var Junk = []string{"--", "-", "-z", "--zz", "-a", "-b", "-o", "--out", "p9", "-o=", "--out=", "-az", "--aa=false", "-ab=v", "-oa", "", " ", "---", "-=", "--=x", "-o=-x", "--out=--", "-o", "-x", "--aa=", "-a=", "-a=false", "-ba", "-abo", "-abox", "-p", "-p-1", "-q=", "--long", "--long=a,b", "é", "-é", "--a", "-aa", "--aa=true=x", "--zz=v", "-z=v", "--dry-run", "--dry", "-nN", "-e", "--e_1=", "-E7", "-1", "--out", "\t", "-\x00", "-5", "-0", "-.5", "-1e3", "-5", "-inf", "+x", "%d", "-%"}
 
 // Mutate applies 0-2 random edits
 func Mutate(r *rand.Rand, argv []string) []string {
 	a := append([]string{}, argv...)
 	n := r.Intn(3)
 	for k := 0; k < n; k++ {
-		switch r.Intn(5) {
+		switch r.Intn(6) {
 		case 0:
 			if len(a) > 0 {
 				i := r.Intn(len(a))
@@ -418,6 +418,18 @@ func Mutate(r *rand.Rand, argv []string) []string {
 		case 4:
 			i := r.Intn(len(a) + 1)
 			a = append(a[:i], append([]string{"--"}, a[i:]...)...)
+		case 5:
+			// a dash-prefixed number right after a dash-prefixed token: never a detached value
+			var cand []int
+			for i, t := range a {
+				if len(t) > 1 && t[0] == '-' && t != "--" && !strings.Contains(t, "=") {
+					cand = append(cand, i)
+				}
+			}
+			if len(cand) > 0 {
+				i := cand[r.Intn(len(cand))] + 1
+				a = append(a[:i], append([]string{[]string{"-5", "-0", "-.5", "-1e3"}[r.Intn(4)]}, a[i:]...)...)
+			}
 		}
 	}
 	return a
